@@ -22,7 +22,7 @@ theorem setAmount_denoms (cs : List Coin) (i a : Nat) :
     split <;> rfl
   rw [this, ← List.map_map, List.zipIdx_map_fst]
 
-theorem foldlM_inv {α β : Type} {f : β → α → R β} (P : β → Prop)
+theorem foldlM_inv_pl {α β : Type} {f : β → α → R β} (P : β → Prop)
     (hstep : ∀ b a b', P b → f b a = .ok b' → P b') :
     ∀ (l : List α) (b0 b' : β), P b0 → l.foldlM f b0 = .ok b' → P b' := by
   intro l
@@ -43,7 +43,7 @@ theorem getPool_ok {s : PmState} {id : String} {p : PoolInfo} (h : s.getPool id 
     exact ⟨List.mem_of_find?_eq_some hq, by simpa using List.find?_some hq⟩
   · cases h
 
-theorem assertSlippageTolerance_ok {tol : Option Nat} {deposits poolAssets : List Coin}
+theorem assertSlippageTolerance_ok_pl {tol : Option Nat} {deposits poolAssets : List Coin}
     {pt : PoolType} {x : List Coin}
     (h : assertSlippageTolerance tol deposits poolAssets pt = .ok x) : x = poolAssets := by
   unfold assertSlippageTolerance at h
@@ -150,7 +150,7 @@ theorem withdrawLiquidity_step {s s' : PmState} {env : PmEnv} {sender : Addr} {f
   simp only [↓err_bind, pure_bind, bind_ok, pure_ok, ite_err_ok, Prod.mk.injEq] at h
   obtain ⟨pool, hp, _, amount, _, _, ratio, _, _, refunds, _, assets', hfold, rfl, _⟩ := h
   refine PmStep.assets s pid pool assets' hp ?_
-  refine foldlM_inv (fun as => as.map (·.denom) = pool.assets.map (·.denom)) ?_ _ _ _ rfl hfold
+  refine foldlM_inv_pl (fun as => as.map (·.denom) = pool.assets.map (·.denom)) ?_ _ _ _ rfl hfold
   intro as r as' ih hstep
   split at hstep
   · simp only [bind_ok, pure_ok] at hstep
@@ -167,7 +167,7 @@ theorem addFold_denoms {as0 as' deposits : List Coin}
               pure (setAmount as i a)
             | none => Except.error Err.mismatch) as0 deposits = .ok as') :
     as'.map (·.denom) = as0.map (·.denom) := by
-  refine foldlM_inv (fun as => as.map (·.denom) = as0.map (·.denom)) ?_ _ _ _ rfl h
+  refine foldlM_inv_pl (fun as => as.map (·.denom) = as0.map (·.denom)) ?_ _ _ _ rfl h
   intro as r as' ih hstep
   split at hstep
   · simp only [bind_ok, pure_ok] at hstep
@@ -188,7 +188,7 @@ theorem provide_leaf {s s' : PmState} {pool : PoolInfo} {pid : String} {ls : Opt
     (h3 : s' = s.savePool { pool with assets := a2 }) : PmStep s s' := by
   subst h3
   refine PmStep.assets s pid pool a2 hp ?_
-  rw [addFold_denoms h2, assertSlippageTolerance_ok h1]
+  rw [addFold_denoms h2, assertSlippageTolerance_ok_pl h1]
 
 theorem provideLiquidity_step {s s' : PmState} {env : PmEnv} {sender : Addr} {funds : List Coin}
     {ls ss : Option Nat} {recv : Option Addr} {pid : String} {u : Option Nat} {l : Option String}
